@@ -784,7 +784,9 @@ def _extern_module(E, name):
     if name == 'collections':
         return ExternModule('collections', dict(deque=_builtin_class('deque')))
     if name == 'functools':
-        return ExternModule('functools', dict(partial=Builtin('partial', lambda f, *a, **k: Partial(f, a, k))))
+        return ExternModule('functools', dict(partial=Builtin('partial', lambda f, *a, **k: Partial(f, a, k)),
+                                              lru_cache=Builtin('lru_cache', lambda *a, **k: _lru_cache(E, *a, **k)),
+                                              cache=Builtin('cache', lambda f: _lru_cache(E, f))))
     if name == 'inspect':
         from . import aio
         return aio.make_inspect_module(E)
@@ -796,6 +798,25 @@ def _extern_module(E, name):
     if top in ('rsocket', 'reactivestreams', 'tests', 'performance', 'examples'):
         return None
     return ExternModule(name, {})
+
+
+def _lru_cache(E, *a, **k):
+    """functools.lru_cache / cache: a memo that lives as long as the process - one per explored path here, which is every
+    history the harness builds.  Eviction (maxsize) is not modelled: a hit is assumed whenever the key was seen, which is the
+    case that matters for sharing (the same RESULT OBJECT handed to two callers)."""
+    def decorate(f):
+        def memoised(*args, **kwargs):
+            key = tuple(dict_key(E, x) for x in args) + tuple(sorted((n, dict_key(E, v)) for n, v in kwargs.items()))
+            memo = E.path.ghost.setdefault(('lru_cache', getattr(f, 'qualname', id(f))), {})
+            if key not in memo:
+                memo[key] = E.call(f, list(args), kwargs)
+            return memo[key]
+        w = Builtin('lru_cache:' + getattr(f, 'qualname', '?'), memoised)
+        w.qualname = getattr(f, 'qualname', None)
+        return w
+    if len(a) == 1 and not k and isinstance(a[0], (ENG.PyFunc, ENG.BoundMethod)):
+        return decorate(a[0])
+    return Builtin('lru_cache()', decorate)
 
 
 class Partial:
@@ -1467,7 +1488,11 @@ def delitem(E, obj, idx):
 
 
 def dict_key(E, k):
-    if isinstance(k, (SInt, SBool, SBytes, SStr, SReal)):
+    if isinstance(k, SStr):
+        # an opaque string as a key: the same string object finds its entry again (decoding the same bytes object yields the
+        # same string object); two DIFFERENT opaque strings may still be equal, which a lookup would have to branch on
+        return k
+    if isinstance(k, (SInt, SBool, SBytes, SReal)):
         if isinstance(k, SBytes) and k.conc is not None:
             return k.conc
         raise Unsupported('symbolic dict key %r' % (k,))
@@ -1558,7 +1583,12 @@ def bytes_attr(E, v, name):
                 except UnicodeDecodeError:
                     E.throw('UnicodeDecodeError', 'invalid')
             # validity of UTF-8 is an uninterpreted predicate of the bytes; decoding may fail
+            memo = E.path.ghost.setdefault('decoded_strings', {})
+            mk = (id(b), encoding, errors)
+            if mk in memo:
+                return memo[mk][1]          # decoding is a function: the same bytes object decodes to the same string
             s = E.fresh_str('decoded')
+            memo[mk] = (b, s)
             if errors == 'strict':
                 ok = E.fresh_bool('utf8_valid')
                 if not E.decide(ok, 'utf8'):
